@@ -83,11 +83,22 @@ theorem fill_segment (pool : Pool) (sh : TxId → SH) (t : TxId) (rest : List Tx
       .ok (pre ++ some t :: (List.replicate rest.length none ++ post)) := by
     have := setSlot_at pre none (List.replicate rest.length none ++ post) t
     simpa [List.replicate_succ, List.append_assoc] using this
-  simp only [List.map_cons, enumWork, List.cons_append, fill, hget, hp, hset]
   cases rest with
-  | nil => simp [expand, enumWork]
+  | nil =>
+    simp only [if_true] at hp
+    have hfit : ¬ (pre.length + ([] : List TxId).length > (pre ++ List.replicate [t].length none ++ post).length) := by
+      simp
+    simp only [List.map_cons, List.map_nil, enumWork, List.cons_append, List.nil_append, fill, hget, hp, hfit, if_false, hset]
+    simp [expand]
   | cons r rs =>
-    simp only [List.cons_ne_nil, if_false]
+    simp only [List.cons_ne_nil, if_false] at hp
+    have hfit : ¬ (pre.length + (t :: r :: rs).length >
+        (pre ++ List.replicate (t :: r :: rs).length none ++ post).length) := by
+      simp
+    have hw : enumWork pre.length ((t :: r :: rs).map sh) =
+        (pre.length, sh t) :: enumWork (pre.length + 1) ((r :: rs).map sh) := rfl
+    rw [hw]
+    simp only [List.cons_append, fill, hget, hp, hfit, if_false, hset]
     have hexp := expand_at pre (t :: r :: rs) [] (some t :: List.replicate (r :: rs).length none) post (by simp)
     simp only [List.append_nil, List.length_nil] at hexp
     have hexp' : expand (pre ++ some t :: (List.replicate (r :: rs).length none ++ post)) pre.length (t :: r :: rs) 0 =
